@@ -12,7 +12,7 @@ set_option linter.unusedVariables false
 
 open Finset BigOperators
 
-namespace GT
+namespace GT.Act
 open ND
 
 section nd
@@ -318,4 +318,4 @@ theorem normalizeLit_units [DecidableEq K] (rabs : K → K) (v F : ND K) {o : Li
   · simp [h0, rowAt]
   · simp [h0, rowAt]
 
-end GT
+end GT.Act
